@@ -147,6 +147,8 @@ def collect_verus_units(prop, repo, scratch, only=None):
             all_props.add('C06')
         if sc.get('kind', 'single') in ('single', 'multi'):
             all_props.add('C04') if sc.get('error_is_c04', True) else None
+        if sc.get('c06_ensures'):
+            all_props.add('C06')
         if prop not in all_props:
             continue
         op = sc['op']
@@ -218,9 +220,11 @@ def collect_verus_units(prop, repo, scratch, only=None):
             o = Obl('%s.V.%s.%s' % (prop, op, ln), 'verus', 'verus/z3', sorted(lps), unit=op, fn=ln)
             o.status, o.detail, o.seconds = classify_verus_fn(r, ln)
             obls.append(o)
-        for fact, (ok, why) in g.get('definite_facts', {}).items():
-            if prop in props_unit or prop == 'C06':
-                o = Obl('%s.S.%s.%s' % (prop, op, fact), 'syntactic', 'rxprep', sorted(props_unit | {'C06'}), unit=op, where=sc['file'])
+        for fact, tup in g.get('definite_facts', {}).items():
+            ok, why = tup[0], tup[1]
+            fprops = set(tup[2]) if len(tup) > 2 else (props_unit | {'C06'})
+            if prop in fprops:
+                o = Obl('%s.S.%s.%s' % (prop, op, fact), 'syntactic', 'rxprep', sorted(fprops), unit=op, where=sc['file'])
                 o.status = 'discharged' if ok else 'failed'
                 o.detail = '' if ok else why
                 obls.append(o)
